@@ -15,10 +15,12 @@ import (
 // C18: hosts-file lines yield exactly the listed names with the given address.
 
 type c18Line struct {
-	Text    string   `json:"text"`
-	IP      string   `json:"ip,omitempty"` // empty = bare domain form
-	Names   []string `json:"names"`
-	Comment string   `json:"comment,omitempty"`
+	// InComment are names that occur in the comment only.
+	InComment []string `json:"names_in_comment_only,omitempty"`
+	Text      string   `json:"text"`
+	IP        string   `json:"ip,omitempty"` // empty = bare domain form
+	Names     []string `json:"names"`
+	Comment   string   `json:"comment,omitempty"`
 }
 
 var c18IPs = []string{"0.0.0.0", "127.0.0.1", "192.168.1.10", "10.0.0.1", "255.255.255.255", "::", "::1", "2001:db8::1", "fe80::1", "::ffff:1.2.3.4", "::ffff:0:0", "1.1.1.1", "fe80::1%eth0", "0:0:0:0:0:0:0:1", "2001:DB8::A", "0000:0000:0000:0000:0000:ffff:192.168.100.200", "0:0:0:0:0:ffff:192.168.1.1", "ffff:ffff:ffff:ffff:ffff:ffff:ffff:ffff"}
@@ -75,12 +77,30 @@ func c18MakeLine(c *core.Ctx) c18Line {
 		l.IP = c18IPs[c.Rng.Intn(len(c18IPs))]
 		sb.WriteString(l.IP)
 		n := 1 + c.Rng.Intn(8)
+		long := -1
+		if c.Rng.Intn(60) == 0 {
+			// A run of blanks longer than any read buffer is still a run of blanks.
+			long = c.Rng.Intn(n)
+		}
 		for i := 0; i < n; i++ {
 			nm := c18Name(c, false)
 			l.Names = append(l.Names, nm)
 			sb.WriteString(c18Blank(c))
+			if i == long {
+				sb.WriteString(strings.Repeat(" \t"[c.Rng.Intn(2):][:1], []int{4090, 4200, 8300}[c.Rng.Intn(3)]))
+			}
 			sb.WriteString(nm)
 		}
+	}
+	if c.Rng.Intn(60) == 0 {
+		// A comment longer than any read buffer, with a name at its end.
+		l.InComment = []string{"only-in-comment.example"}
+		l.Comment = "#" + strings.Repeat(" ", []int{4090, 4200, 8300}[c.Rng.Intn(3)]) + l.InComment[0]
+		sb.WriteString(c18Blank(c))
+		sb.WriteString(l.Comment)
+		l.Text = sb.String()
+
+		return l
 	}
 	if c.Rng.Intn(3) > 0 {
 		body := c18CommentBodies[c.Rng.Intn(len(c18CommentBodies))]
@@ -255,7 +275,7 @@ func c18Run(c *core.Ctx, idx int) {
 			c.Violation("dns-engine-host-rules", nil, map[string]any{"list": texts, "query": name, "got": keys(got), "want": keys(want)},
 				"DNSEngine.Match(%q) over %q: got %v matched=%v, expected %v", name, texts, keys(got), matched, keys(want))
 		}
-		for _, p := range c18Perturb(name) {
+		for _, p := range append(c18Perturb(name), l.InComment...) {
 			res, _ = eng.Match(p)
 			c.Eval(1)
 			for _, h := range append(append([]*rules.HostRule{}, res.HostRulesV4...), res.HostRulesV6...) {
